@@ -8,7 +8,7 @@ import ast
 
 from ..core import AnchorError, call_name, decorators, decorator_node, norm, short, own_nodes, kwarg, FUNC_TYPES
 from ..cfg import cfg_of
-from ..lib import calls_in, stmts_in, gate, must_pass, node_has, params, paired, raised_name
+from ..lib import calls_in, stmts_in, gate, must_pass, node_has, params, paired, raised_name, effective_body
 
 REC = 'jedi.inference.recursion'
 ST = 'jedi.inference.syntax_tree'
@@ -169,7 +169,7 @@ def rule_b(repo, chk):
         p = cpe.reach([cpe.entry], lambda n: n in rets, block_node=lambda n: n in ns)
         chk.ob('C15.b', p is None, pe, 'no return of push_execution precedes the %s (pop_execution always undoes both)' % what,
                'path: %s' % cpe.describe(p) if p else '')
-    body = [norm(s) for s in po.body]
+    body = [norm(s) for s in effective_body(po)]
     ok = sorted(body) == sorted(['self._parent_execution_funcs.pop()', 'self._recursion_level -= 1'])
     chk.ob('C15.b', ok, po, 'pop_execution reverses exactly those two updates', str(body))
     av = repo.find('jedi.inference.dynamic_params', '_avoid_recursions.wrapper')
